@@ -24,7 +24,8 @@ ALLOWED_ALWAYS = {"InvalidPyodaDataError"}
 ALLOWED_PROVIDER = {"InvalidPyodaDataError", "InvalidDateTimeZoneSourceError"}
 BUDGET_FACTOR = 20
 BUDGET_SLACK = 100_000
-MEM_LIMIT = 4 << 30
+MEM_HEADROOM = 1 << 30  # address space a run may add on top of what the forked child already maps
+RSS_SLACK_KB = 192 * 1024
 
 _FILES = None  # [bytes, bytes]
 _LAYOUT = None  # per file: dict of structural regions (framing scanner over the intact bytes)
@@ -136,11 +137,42 @@ def _pick_byte(rng, old, data=None, off=0):
     return v
 
 
+def _gen_inflate(rng, fi, data, lay):
+    """Rewrite a length/count varint into a huge one (a run of 0xFF continuation bytes, then a terminator): the classic
+    'count honoured before the data is there' probe. Positions: a field's length varint, the leading count of a field
+    (string pool, id map, locations - documented as 'count, then that many entries'), a zone's period count."""
+    c = rng.random()
+    if c < 0.3:
+        f = rng.choice(lay["fields"])
+        off, reg = f["len_start"], "inflate-field-length"
+    elif c < 0.55:
+        f = rng.choice([x for x in lay["fields"] if x["id"] != 1] or lay["fields"])
+        off, reg = f["data_start"], "inflate-field-count"
+    else:
+        f = rng.choice(lay["zone_fields"])
+        off, reg = f.get("body_start", f["data_start"]) + 1 + rng.choice([0, 0, 0, 1, 2]), "inflate-zone-count"
+    j = rng.choice([2, 3, 3, 3, 4])
+    plan = []
+    for i in range(j):
+        if off + i < len(data):
+            plan.append(["sub", off + i, 0xFF])
+    if j < 4 and rng.random() < 0.7 and off + j < len(data):
+        plan.append(["sub", off + j, rng.choice([0x7F, 0x07, 0x01, 0x3F])])
+    plan = [f for f in plan if data[f[1]] != f[2]] or [["sub", off, 0xFF ^ (data[off] == 0xFF)]]
+    return plan, [reg] * len(plan)
+
+
 def gen_corruption(seed):
     rng = random.Random(seed)
     fs = files()
     fi = 0 if rng.random() < 0.6 else 1
     data, lay = fs[fi], _LAYOUT[fi]
+    if rng.random() < 0.10:
+        plan, regions = _gen_inflate(rng, fi, data, lay)
+        return {
+            "prop": PROP, "seed": seed, "mode": "corrupt", "file": fi, "plan": plan, "regions": regions,
+            "all_ids": False, "extra_ids": rng.randrange(0, 3), "ids_seed": rng.randrange(1 << 30), "tracemalloc": False,
+        }  # fmt: skip
     k = rng.choices([1, 2, 3, 4], [50, 25, 15, 10])[0]
     plan = []
     regions = []
@@ -183,6 +215,8 @@ def gen_run(seed):
 
 
 def corpus():
+    if os.environ.get("VERIF_C20_NO_CORPUS"):
+        return []
     p = os.path.join(os.path.dirname(os.path.abspath(__file__)), "c20_corpus.json")
     try:
         with open(p) as f:
@@ -404,7 +438,9 @@ def _workload(run, data, spec, ctl, fetch_all=False):
 def execute(spec):
     import resource
 
-    resource.setrlimit(resource.RLIMIT_AS, (MEM_LIMIT, MEM_LIMIT))
+    lim = _vm_size() + MEM_HEADROOM
+    resource.setrlimit(resource.RLIMIT_AS, (lim, lim))
+    rss0 = resource.getrusage(resource.RUSAGE_SELF).ru_maxrss
     fs = files()
     data = simio.apply_plan(fs[spec["file"]], spec["plan"])
     ctl = _CONTROL[spec["file"]] if _CONTROL else None
@@ -445,6 +481,11 @@ def execute(spec):
     out["notes"] = []
     if info.get("ids_mismatch"):
         out["notes"].append("provider ids differ from source ids")
+    rss_growth = resource.getrusage(resource.RUSAGE_SELF).ru_maxrss - rss0
+    probes["rss_growth_kb_max"] = 0  # (per-run values are not summed; see rss_growth_over_64MiB)
+    probes["rss_growth_over_64MiB"] = int(rss_growth > 64 * 1024)
+    if run.violation is None and rss_growth > 8 * ctl.get("rss_growth_kb", 0) + RSS_SLACK_KB:
+        run.violation = ("resident memory grew far beyond the intact-file workload", f"peak RSS grew by {rss_growth} kB (intact-file workload: {ctl.get('rss_growth_kb')} kB)")  # fmt: skip
     if run.violation is None and peak is not None and peak > 8 * ctl["peak"] + (16 << 20):
         run.violation = ("memory peak exceeds 8x intact + 16MiB", f"peak {peak} bytes vs intact {ctl['peak']}")
     if run.violation is not None:
@@ -460,7 +501,18 @@ def execute(spec):
 # fault-free control, measured on the current tree (in a fork, so the parent stays pristine)
 
 
+def _vm_size():
+    try:
+        with open("/proc/self/statm") as f:
+            return int(f.read().split()[0]) * os.sysconf("SC_PAGE_SIZE")
+    except Exception:  # noqa: BLE001
+        return 3 << 30
+
+
 def _control(fi):
+    import resource
+
+    rss0 = resource.getrusage(resource.RUSAGE_SELF).ru_maxrss
     fs = files()
     data = fs[fi]
     run = _Run({})
@@ -494,7 +546,8 @@ def _control(fi):
     _workload(_Run({}), data, spec, None, fetch_all=True)
     peak = tracemalloc.get_traced_memory()[1]
     tracemalloc.stop()
-    return {"ids": ids2, "aliases_of": {k: sorted(v) for k, v in aliases_of.items()}, "work": work, "peak": peak, "n_ops": len(run.ops), "bytes_read": info["bytes_read"], "read_calls": info["read_calls"]}  # fmt: skip
+    rss_growth = resource.getrusage(resource.RUSAGE_SELF).ru_maxrss - rss0
+    return {"rss_growth_kb": rss_growth, "ids": ids2, "aliases_of": {k: sorted(v) for k, v in aliases_of.items()}, "work": work, "peak": peak, "n_ops": len(run.ops), "bytes_read": info["bytes_read"], "read_calls": info["read_calls"]}  # fmt: skip
 
 
 def prepare(tier, master_seed, workers):
@@ -567,7 +620,7 @@ RULE = (
 ASSUMPTIONS = [
     "the stream behaves like io.BufferedIOBase (short result only at end of data); OSError and short reads before EOF are outside the stated quantifier and not injected",
     "'promptly / never hangs' is decided by a deterministic work budget (function entries + loop back-edges counted with sys.monitoring) of 20x the intact-file cost + 1e5 per operation, calibrated on the current tree at every invocation; loops inside C code are covered only by the wall-clock watchdog",
-    "'exhausts memory' is decided by RLIMIT_AS=4GiB (MemoryError is a violation) and, in 1 run of 16, a tracemalloc peak bound of 8x the intact peak + 16MiB",
+    "'exhausts memory' is decided three ways: RLIMIT_AS = the child's address space at start + 1 GiB (a MemoryError is a violation), growth of peak resident memory during the run bounded by 8x the intact-file workload's growth + 192 MiB (every run), and in 1 run of 16 a tracemalloc peak bound of 8x the intact peak + 16MiB",
     "zones are fetched, not queried: behaviour of a zone object built from damaged but accepted data is outside the statement",
 ]
 
